@@ -56,6 +56,7 @@ class Ev:
         self.depth = 0
         self.attr_values: Dict[str, Any] = {}  # instance attributes bound to a tuple / list display in __init__
         self.visited: set = set()  # qualified names of the functions inlined while evaluating
+        self.stacks: List[List[str]] = []  # contextlib.ExitStack objects: the sub-contexts each currently holds
 
     # -- expressions -----------------------------------------------------------------------------
     def ev(self, e: ast.AST, env: Dict[str, Any], fn: FunctionInfo, conds: List[str]):
@@ -327,11 +328,33 @@ class Ev:
                 if target is None:
                     return ("opaque", norm(e))
                 return self.inline(target, args, kwargs, conds, via="cls")
+            if base[0] == "exitstack":
+                sid = base[1]
+                if f.attr == "enter_context" and len(args) == 1 and args[0][0] == "inst":
+                    self.effects.append(("sub", "__enter__", args[0][1], 0, list(conds), norm(e)))
+                    self.stacks[sid].append(args[0][1])
+                    return args[0]
+                if f.attr == "pop_all" and not args:
+                    self.stacks.append(list(self.stacks[sid]))
+                    self.stacks[sid] = []
+                    return ("exitstack", len(self.stacks) - 1)
+                if f.attr in ("close", "__exit__"):
+                    for a_ in reversed(self.stacks[sid]):
+                        self.effects.append(("sub", "__exit__", a_, 3, list(conds), norm(e)))
+                    self.stacks[sid] = []
+                    return ("const", None)
+                raise Unsupported(f"ExitStack.{f.attr}")
+            if base[0] == "pop" and f.attr in ("__exit__", "close"):
+                # self._stacks.pop().__exit__(*args): closes what the matching __enter__ pushed
+                self.effects.append(("sub", "__exit__", "#popped:" + base[1], len(e.args) + len(e.keywords), list(conds), norm(e)))
+                return ("const", None)
             if base[0] == "namedclass":
                 self.effects.append(("namedcall", base[1], f.attr, norm(e)))
                 return ("opaque", norm(e))
             if base[0] == "inst":
                 if f.attr == "append" and len(args) == 1:
+                    if args[0][0] == "exitstack":
+                        args[0] = ("exitstack-held", tuple(self.stacks[args[0][1]]))
                     self.effects.append(("push", base[1], args[0], list(conds), norm(e)))
                     return ("const", None)
                 if f.attr == "pop" and len(args) == 0:
@@ -407,7 +430,7 @@ class Ev:
                 return False
             self.ev(st.value, env, fn, conds)
             return False
-        if isinstance(st, ast.Pass):
+        if isinstance(st, (ast.Pass, ast.Import, ast.ImportFrom)):
             return False
         if isinstance(st, ast.Return):
             v = self.ev(st.value, env, fn, conds) if st.value is not None else ("const", None)
@@ -465,6 +488,17 @@ class Ev:
                         if self.block(st.body, env, fn, conds + c_extra) and not c_extra:
                             return True
                     return False
+        if isinstance(st, ast.With) and len(st.items) == 1 and isinstance(st.items[0].context_expr, ast.Call) \
+                and (dotted(st.items[0].context_expr.func) or "").endswith("ExitStack") and isinstance(st.items[0].optional_vars, ast.Name):
+            # with contextlib.ExitStack() as stack: ... stack.enter_context(part) ... self._stack = stack.pop_all()
+            sid = len(self.stacks)
+            self.stacks.append([])
+            env[st.items[0].optional_vars.id] = ("exitstack", sid)
+            done = self.block(st.body, env, fn, conds)
+            for a_ in reversed(self.stacks[sid]):  # whatever was not moved out is closed when the with block ends
+                self.effects.append(("sub", "__exit__", a_, 3, list(conds), "ExitStack.__exit__"))
+            self.stacks[sid] = []
+            return done
         raise Unsupported(f"statement {type(st).__name__}: {short(st)}")
 
     def assign(self, t: ast.AST, v, env, fn, conds, text):
@@ -481,6 +515,8 @@ class Ev:
         if isinstance(t, ast.Attribute):
             base = self.ev(t.value, env, fn, conds)
             if base[0] == "self":
+                if v[0] == "exitstack":
+                    v = ("exitstack-held", tuple(self.stacks[v[1]]))
                 if v[0] == "pushed" and v[1] == t.attr:
                     self.effects.append(("push", t.attr, v[2], list(conds), text))
                     return
@@ -874,7 +910,7 @@ def check_composite(idx, rep: Report, cls: ClassInfo, leaf_classes: Dict[str, Cl
     who = f"{cls.module.name.split('.')[-1]}.{cls.name}"
     try:
         init = run_method(idx, cls, set(), "__init__")
-        groups = {e[1]: e[2] for e in init.effects if e[0] == "setattr" and e[2][0] in ("tuple", "list")
+        groups = {e[1]: e[2] for e in init.effects if e[0] == "setattr" and e[2][0] in ("tuple", "list") and e[2][1]
                   and all(x[0] == "inst" or (x[0] == "cond" and x[2][0] == "inst") for x in e[2][1])}
         enter = run_method(idx, cls, set(), "__enter__", groups)
         exit_ = run_method(idx, cls, set(), "__exit__", groups)
@@ -886,6 +922,23 @@ def check_composite(idx, rep: Report, cls: ClassInfo, leaf_classes: Dict[str, Cl
             subs_init[e[1]] = e[2]
     entered = [e for e in enter.effects if e[0] == "sub" and e[1] == "__enter__"]
     exited = [e for e in exit_.effects if e[0] == "sub" and e[1] == "__exit__"]
+    # sub-contexts handed to a contextlib.ExitStack that __enter__ keeps: closing the kept stack exits them in reverse order
+    held_attr = {e[1]: e[2][1] for e in enter.effects if e[0] == "setattr" and e[2][0] == "exitstack-held"}
+    held_push = {e[1]: e[2][1] for e in enter.effects if e[0] == "push" and e[2][0] == "exitstack-held"}
+    expanded = []
+    for e in exited:
+        tgt = e[2]
+        parts = held_attr.get(tgt) if tgt in held_attr else (held_push.get(tgt[len("#popped:"):]) if tgt.startswith("#popped:") else None)
+        if parts is not None:
+            expanded += [("sub", "__exit__", a_, 3, e[4], e[5]) for a_ in reversed(parts)]
+        else:
+            expanded.append(e)
+    exited = expanded
+    for attr in held_attr:
+        rep.bad("C17.S2", Finding(PROP, "C17.S2", f"{who}.__enter__", f"self.{attr} = <the stack of entered parts>",
+                                  f"composite context keeps the parts it entered in the single attribute self.{attr}: entering the same "
+                                  "composite object again while it is active overwrites it, so the outer exit closes the inner stack (or an "
+                                  "empty one) and the outer entry's settings are never restored", enter.fn.loc()))
     if not entered:
         raise AnalysisError(f"{who}: composite enters no sub-context")
     en = [e[2] for e in entered]
@@ -1052,7 +1105,7 @@ def run(idx: ProgramIndex, rep: Report, tier: str, selftest: bool = True):
     # composite = its __enter__ forwards to sub-contexts
     def is_composite(c: ClassInfo) -> bool:
         fn = idx.resolve_method(c, "__enter__")
-        return any(isinstance(n, ast.Attribute) and n.attr == "__enter__" for n in ast.walk(fn.node))
+        return any(isinstance(n, ast.Attribute) and n.attr in ("__enter__", "enter_context") for n in ast.walk(fn.node))
 
     leaves = {c.name: c for c in ctx if not is_composite(c)}
     composites = {c.name: c for c in ctx if is_composite(c)}
